@@ -36,24 +36,9 @@ u64 k_ymw_op(unsigned, int, unsigned, unsigned, unsigned, int32_t);
 }
 
 // ------------------------------------------------------------------------------------------------ calendar rules (model)
-// sys_days of -32767-01-01 and 32767-12-31 (computed independently of both libraries; cross-checked against libstdc++ below)
-#define ZMIN (-12687428)
-#define ZMAX (11248737)
-#define YMIN (-32767)
-#define YMAX (32767)
+#include "model.h"
 static_assert(sc::sys_days{sc::year{YMIN} / 1 / 1}.time_since_epoch().count() == ZMIN);
 static_assert(sc::sys_days{sc::year{YMAX} / 12 / 31}.time_since_epoch().count() == ZMAX);
-
-static bool leap(int y) { return y % 4 == 0 && (y % 100 != 0 || y % 400 == 0); }
-static unsigned mlen(int y, unsigned m) { return m == 2 ? (leap(y) ? 29u : 28u) : (m == 4 || m == 6 || m == 9 || m == 11) ? 30u : 31u; }
-static bool valid(int y, unsigned m, unsigned d) { return y >= YMIN && y <= YMAX && m >= 1 && m <= 12 && d >= 1 && d <= mlen(y, m); }
-struct Date { int y; unsigned m, d; };
-static Date succ(Date a)
-{
-    if (a.d < mlen(a.y, a.m)) return {a.y, a.m, a.d + 1};
-    if (a.m < 12) return {a.y, a.m + 1, 1};
-    return {a.y + 1, 1, 1};
-}
 static Date unpack(u64 p) { return {int(int16_t(p & 0xffff)), unsigned(p >> 16 & 0xff), unsigned(p >> 24 & 0xff)}; }
 static u64 pack(int y, unsigned m, unsigned d) { return u64(uint16_t(y)) | u64(m) << 16 | u64(d) << 24; }
 static u64 pk(sc::year y) { return u64(uint16_t(int(y))); }
@@ -206,12 +191,15 @@ Q q_wd_anchors()
     vf_assert(k_wd_from_days(11016) == 2, "2000-02-29 is a Tuesday"); vf_assert(k_wd_from_days(ZMIN) == sc::weekday{sc::sys_days{sc::days{ZMIN}}}.c_encoding(), "weekday(ZMIN) == std");
 }
 // all int32 day numbers for which tp + 5 does not overflow (a superset of the calendar range)
-Q q_wd_std() { int32_t z = vf_nd_i32(); vf_assume(z <= INT32_MAX - 8); vf_assert(k_wd_from_days(z) == sc::weekday{sc::sys_days{sc::days{z}}}.c_encoding(), "weekday{sys_days} == std::chrono"); }
+Q q_wd_std()
+{
+    int32_t z = vf_nd_i32(); vf_assume(z <= INT32_MAX - 8); unsigned r = k_wd_from_days(z);
+    vf_assert(r == sc::weekday{sc::sys_days{sc::days{z}}}.c_encoding(), "weekday{sys_days} == std::chrono"); vf_assert(r == wd_model(z), "weekday{sys_days{z}} == (z + 4) mod 7");
+}
 Q q_wd_local() { int32_t z = nd_z(); vf_assert(k_wd_from_local(z) == k_wd_from_days(z), "weekday{local_days} == weekday{sys_days}"); }
 // weekday of a date. The composition weekday{sys_days{ymd}} against (days_from_civil + 4) mod 7 on etl's own day number (which L3 pins down),
 // and directly against std::chrono on a window of years (-DYWIN=n: 1970-n .. 1970+n-1; both libraries' day-number algorithms in one formula is
 // beyond the solvers for a whole era)
-static unsigned wd_model(long long z) { long long r = (z + 4) % 7; return unsigned(r < 0 ? r + 7 : r); }
 #ifdef YWIN
 static void win_y(int y) { vf_assume(y >= 1970 - (YWIN) && y < 1970 + (YWIN)); }
 #else
